@@ -75,19 +75,22 @@ func c20Gen(t *rapid.T) c20Case {
 	}
 	amount := rapid.OneOf(rapid.Int64Range(0, 3000), rapid.SampledFrom([]int64{0, 1, 99, 100, 101, 1000, 1199, 1200, 4096, 5000, 20000}))
 	step := rapid.Custom(func(t *rapid.T) c20Step {
-		k := rapid.SampledFrom([]string{"write", "write", "write", "write", "maxdata", "maxdata+", "maxdata+", "maxstreamdata", "maxstreamdata+", "maxstreamdata+", "maxstreamdata+", "ack", "acklatest", "advance", "advance", "peerdata", "peerdata", "read", "closewrite", "ccrace"}).Draw(t, "kind")
-		if rapid.IntRange(0, 119).Draw(t, "over") == 0 {
+		k := rapid.SampledFrom([]string{"write", "write", "write", "write", "maxdata", "maxdata+", "maxdata+", "maxstreamdata", "maxstreamdata+", "maxstreamdata+", "maxstreamdata+", "ack", "acklatest", "advance", "advance", "peerdata", "peerdata", "read", "closewrite", "ccrace", "peerreset"}).Draw(t, "kind")
+		switch rapid.IntRange(0, 119).Draw(t, "over") {
+		case 60:
 			k = "peerover"
+		case 61:
+			k = "peerresetover"
 		}
 		s := c20Step{Kind: k}
 		switch k {
 		case "write", "closewrite", "maxstreamdata", "maxstreamdata+":
 			s.S = rapid.IntRange(0, c20Local+1).Draw(t, "s") // slots 4,5 = send side of remote bidi streams
-		case "peerdata", "read", "peerover":
+		case "peerdata", "read", "peerover", "peerreset", "peerresetover":
 			s.S = rapid.IntRange(0, c20Remote-1).Draw(t, "s")
 		}
 		switch k {
-		case "write", "peerdata":
+		case "write", "peerdata", "peerreset": // peerreset: how far the final size lies beyond what was sent
 			s.N = amount.Draw(t, "n")
 		case "maxdata", "maxstreamdata":
 			s.N = rapid.OneOf(rapid.Int64Range(0, 60000), rapid.SampledFrom([]int64{0, 1, 100, 4096, 20000, 1 << 20, 1 << 30})).Draw(t, "v")
@@ -95,7 +98,7 @@ func c20Gen(t *rapid.T) c20Case {
 			s.N = rapid.SampledFrom([]int64{1, 10, 100, 1000, 1200, 5000, 100000}).Draw(t, "inc")
 		case "read":
 			s.N = rapid.Int64Range(1, 8000).Draw(t, "n")
-		case "peerover":
+		case "peerover", "peerresetover":
 			s.N = rapid.Int64Range(1, 3).Draw(t, "n") // 1: stream limit +1, 2: conn limit +1, 3: far beyond
 		}
 		return s
@@ -133,6 +136,7 @@ func c20Run(t *testing.T, c c20Case, r *vp.Rec) error {
 	advMaxData := c.ConnBuf          // what the conn advertised to us (non-decreasing)
 	advMaxSD := map[streamID]int64{} // per stream the peer sends on
 	peerSent := map[streamID]int64{} // highest offset the peer has sent
+	peerReset := map[streamID]bool{} // the fake peer has sent RESET_STREAM for the stream
 	var peerSentSum int64
 	closed := transportError(0)
 	gotClose := false
@@ -293,7 +297,7 @@ func c20Run(t *testing.T, c c20Case, r *vp.Rec) error {
 			// get FLOW_CONTROL_ERROR. (If the update does leave, the monitor sees it
 			// and the overrun below is simply relative to the new limit.)
 			s := sendStream(0)
-			if s == nil {
+			if s == nil || peerReset[remoteID(0)] {
 				continue
 			}
 			peerMaxData = max(peerMaxData, 1<<30)
@@ -359,8 +363,58 @@ func c20Run(t *testing.T, c c20Case, r *vp.Rec) error {
 			tc.writeAckForLatest()
 		case "advance":
 			vpAdvance(tc, 10*time.Second)
+		case "peerreset", "peerresetover":
+			// RESET_STREAM: its final size counts against both limits like data up to
+			// that offset would (RFC 9000 4.5)
+			id := remoteID(st.S)
+			if peerReset[id] {
+				continue
+			}
+			final := peerSent[id] + st.N
+			if st.Kind == "peerreset" {
+				final = min(final, advFor(id), peerSent[id]+advMaxData-peerSentSum)
+				if final < peerSent[id] {
+					continue
+				}
+				r.Class("peer-reset-within-limits")
+				if final > peerSent[id] {
+					r.Class("peer-reset-final-size-beyond-data-sent")
+				}
+			} else {
+				switch st.N {
+				case 1:
+					final = advFor(id) + 1
+				case 2:
+					final = peerSent[id] + advMaxData - peerSentSum + 1
+				default:
+					final = advFor(id) + advMaxData + 7
+				}
+				if final <= peerSent[id] {
+					continue
+				}
+				expectClose = true
+				r.Class("peer-overrun-by-reset-final-size")
+			}
+			peerReset[id] = true
+			tc.writeFrames(packetType1RTT, debugFrameResetStream{id: id, code: 1, finalSize: final})
+			peerSentSum += final - peerSent[id]
+			peerSent[id] = final
+			if !expectClose && remote[st.S] == nil {
+				if s, err := tc.conn.AcceptStream(ctx); err == nil {
+					s.SetReadContext(ctx)
+					s.SetWriteContext(ctx)
+					for j := 0; j < c20Remote; j++ {
+						if remoteID(j) == s.id {
+							remote[j] = s
+						}
+					}
+				}
+			}
 		case "peerdata", "peerover":
 			id := remoteID(st.S)
+			if peerReset[id] {
+				continue
+			}
 			off := peerSent[id]
 			n := st.N
 			over := false
